@@ -297,6 +297,19 @@ def _run_program(modname, progname, repo, timeout_ms, arg):
     from pyvc.values import Unsupported
     mod = importlib.import_module(modname)
     fn = getattr(mod, progname)
+    if getattr(fn, 'plain', False):
+        # a plain obligation function (symx / nlsat): returns a list of obligation dicts
+        t0 = time.time()
+        try:
+            obs = fn(repo, arg, timeout_ms)
+            err = None
+        except Exception as e:
+            obs, err = [], 'engine error: %s\n%s' % (repr(e), traceback.format_exc()[-1500:])
+        for o in obs:
+            o.setdefault('detail', ''); o.setdefault('model', None); o.setdefault('seconds', 0.0)
+            o.setdefault('backend', 'sympy'); o.setdefault('paths', 1)
+        return {'program': progname, 'arg': arg, 'obligations': obs, 'error': err, 'paths': 1,
+                'wall': time.time() - t0, 'assumptions': [], 'solver_seconds': sum(o['seconds'] for o in obs)}
     eng = Engine(repo, timeout_ms=timeout_ms, extra_paths=[os.path.join(VERIF, 'contracts')])
     t0 = time.time()
     err = None
